@@ -37,6 +37,9 @@ def ansOf : Except String KeyAns → String
   input whose matcher returned `indices` (`.` = no match): nothing when the line does not match or the
   whole match `{0}` is empty (the extractor drops empty keys), otherwise `filterLine`; the pattern is
   only used by the implementation side;
+* `filtl <enabled> <-l> <num> <K|-> <m|d> <pattern> <lines> <indices;…>` – the whole output of `rare filter [-l] [-n num]
+  [-e '{src}:{line}:{K}']` on a file of several lines (the matcher's index list per line is data, `.` = no match; the file
+  name is printed as `IN`): `filterAll` – `--line` prefix with its two colours, `--num` limit, `--extract` branch;
 * `plan <matchSet> <dissectSet> <posix> <ignoreCase> <matchExpr> <dissectExpr> <line> <candidates>` – the matcher
   `BuildMatcherFromArguments` selects, applied to the line: the model picks among the engines' own answers
   (`re(e); re((?i)e); posix(e); posix((?i)e); dissect(d,false); dissect(d,true)`, `E` = does not compile);
@@ -84,6 +87,30 @@ def handle : List String → String
           match filterLine (en == "1") (Gen.C02.groupColors.map lit) (lit Gen.C02.reset) line indices with
           | .ok segs => s!"ok {Hex.enc (render segs)}"
           | .error _ => "panic"
+    | _, _ => "bad-args"
+  | ["filtl", en, wl, num, k, _, _, ls, ixs] =>
+    match decHexList ls, num.toInt? with
+    | some lines, some numI =>
+      let numN : Nat := if numI < 0 then (18446744073709551616 + numI).toNat else numI.toNat
+      let ixl := (ixs.splitOn ";").map decInts
+      if ixl.length != lines.length || ixl.any Option.isNone then "bad-args" else
+      let custom := k != "-"
+      let src := ascii "IN"
+      let ms : List FMatch := ((lines.zip ixl).zipIdx 1).filterMap fun ((line, ix), i) =>
+        match ix with
+        | some ix =>
+          if ix.isEmpty then none
+          else
+            let g0 := match getMatch line ix 0 with | .ok b => b | .error _ => []
+            if custom then
+              let gk := match getMatch line ix (k.toInt?.getD 0) with | .ok b => b | .error _ => []
+              some ⟨src, i, line, ix, src ++ [0x3a] ++ itoa i ++ [0x3a] ++ gk⟩
+            else if g0.isEmpty then none else some ⟨src, i, line, ix, g0⟩
+        | none => none
+      let pal : Palette := ⟨Gen.C02.groupColors.map lit, lit Gen.C02.reset, lit Gen.C02.filterSrcColor, lit Gen.C02.filterNumColor⟩
+      match filterAll (en == "1") (wl == "1") custom pal numN ms 0 with
+      | .ok segs => s!"ok {Hex.enc (render segs)}"
+      | .error _ => "panic"
     | _, _ => "bad-args"
   | ["plan", ms, ds, px, ic, me, de, l, cands] =>
     match Hex.dec me, Hex.dec de, Hex.dec l with
